@@ -336,3 +336,19 @@ def verify_scen(n, variant, mode, L=None, deadline_s=None, tag=''):
             'paths': ex.paths, 'queries': ex.nq, 'solver_s': ex.solver_s, 'steps': ex.steps, 'returned': out['ret'], 'bad': out['bad'][:6], 'panics': panics[:6],
             'witnesses': out['wit'], 'obligations': asserts + out['checks'], 'violable': len(out['bad']) + len(panics), 'samples': out['samples'],
             'mir_hash': {'falcon::verify': fn.hash}}
+
+
+def params_scen():
+    """FalconVariant::parameters() of both variants, evaluated on the real MIR (concrete), for comparison with the specification's table"""
+    P = prog()
+    ex = new_exec(P)
+    out = {}
+    fn = P.by_key['FalconVariant::parameters']
+    for variant in (512, 1024):
+        got = []
+        ex.on_return = lambda e, s_, rv: got.append(rv)
+        st = ex.start(fn, [temp_ref(Agg('FalconVariant', 'Falcon%d' % variant, ()))])
+        ex.explore(st)
+        r = got[0]
+        out[variant] = {'n': r.f[0].t, 'sigma': r.f[1].t, 'sigmin': r.f[2].t, 'sig_bound': r.f[3].t, 'sig_bytelen': r.f[4].t}
+    return {'params': out, 'mir_hash': {'FalconVariant::parameters': fn.hash}, 'paths': ex.paths, 'steps': ex.steps, 'queries': 0, 'solver_s': 0.0}
